@@ -138,5 +138,83 @@ theorem uninstallGlobal_g (c : FastOps) (node : Node) (a : Cursor) :
   unfold uninstallGlobal
   cases hl : a.lastP <;> cases hn : node.nextP <;> simp <;> split <;> simp
 
+
+/-- `uninstall` seen through the global view -/
+def uninstallG (c : FastOps) (node : Node) (a : Cursor) : FastOps :=
+  let c1 := uninstallGlobal c node a
+  (c1.setN (c1.n - 1)).decrBond node.op.bond
+
+theorem uninstallGlobal_node_g (c : FastOps) (node : Node) (a : Cursor) :
+    uninstallGlobal c node.g a = uninstallGlobal c node a := rfl
+
+theorem uninstall_g (c : FastOps) (node : Node) (a : Cursor) :
+    (uninstall c node a).g = uninstallG c.g node a := by
+  unfold uninstall uninstallG
+  have h := foldl_g _ (uninstallVar_g node a) node.op.vars.zipIdx (uninstallGlobal c node a)
+  have hn : (node.op.vars.zipIdx.foldl (uninstallVar node a) (uninstallGlobal c node a)).n
+      = (uninstallGlobal c.g node a).n := by
+    have := congrArg FastOps.n h
+    simpa [uninstallGlobal_g] using this
+  simp only [decrBond_g, setN_g, hn]
+  rw [h, uninstallGlobal_g]
+
+theorem uninstallG_node_g (c : FastOps) (node : Node) (a : Cursor) :
+    uninstallG c node.g a = uninstallG c node a := rfl
+
+/-- `install` seen through the global view -/
+def installG (c : FastOps) (p : Nat) (op : Op) (a : Cursor) : FastOps := installGlobal c p op [] [] a
+
+theorem installGlobal_g (c : FastOps) (p : Nat) (op : Op) (prevs nexts) (a : Cursor) :
+    (installGlobal c p op prevs nexts a).g = installGlobal c.g p op [] [] a := by
+  unfold installGlobal
+  have hb : ∀ lp, (c.g.getNode lp).bind (·.nextP) = (c.getNode lp).bind (·.nextP) := by
+    intro lp; rw [getNode_g]; cases c.getNode lp <;> rfl
+  cases hl : a.lastP with
+  | none =>
+    simp only [g_pEnds]
+    cases hn : c.pEnds.map (·.1) <;> simp [Node.g]
+  | some lp =>
+    simp only [hb]
+    cases hn : (c.getNode lp).bind (·.nextP) <;> simp [Node.g]
+
+theorem install_g (c : FastOps) (p : Nat) (op : Op) (a : Cursor) :
+    (install c p op a).g = installG c.g p op a := by
+  unfold install installG
+  simp only [installGlobal_g]
+  rw [foldl_g _ (installNextWrite_g p), foldl_g _ (installPrevWrite_g p)]
+
+theorem fastInstall_g (c : FastOps) (p : Nat) (old : Node) (op : Op) :
+    (fastInstall c p old op).g = fastInstall c.g p old.g op := by
+  unfold fastInstall
+  simp [Node.g]
+
+/-- `change` seen through the global view -/
+def changeG (c : FastOps) (p : Nat) (new : Option Op) (a : Cursor) : FastOps :=
+  let old := c.getNode p
+  let c0 := c.setOp p none
+  let sameVars :=
+    match new, old with
+    | some o, some nd => nd.op.vars == o.vars
+    | _, _ => false
+  if sameVars then
+    match new, old with
+    | some o, some nd => fastInstall c0 p nd o
+    | _, _ => c0
+  else
+    let c1 := match old with
+      | some nd => uninstallG c0 nd a
+      | none => c0
+    match new with
+    | some o => installG c1 p o a
+    | none => c1
+
+theorem change_g (c : FastOps) (p : Nat) (new : Option Op) (a : Cursor) :
+    (change c p new a).g = changeG c.g p new a := by
+  unfold change changeG
+  rw [getNode_g]
+  cases hnew : new <;> cases hold : c.getNode p <;>
+    simp [uninstall_g, install_g, fastInstall_g, apply_ite FastOps.g, uninstallG_node_g,
+      show ∀ nd : Node, nd.g.op = nd.op from fun _ => rfl]
+
 end FastOps
 end Qmc
